@@ -50,7 +50,8 @@ type Cfg struct {
 	// Long > 0: strings and keys may also be long: lengths 63..66 and 130 (around the
 	// 64-byte literal/collect buffers of the parsers and the encoders' scratch
 	// space), with Long >= 2 also 255, 256 and 300 (where the length prefix of CBOR
-	// and UBJSON changes width). First byte symbolic, the rest a fixed pattern.
+	// and UBJSON changes width); Long 3: lengths equal to UBJSON marker bytes; Long 4:
+	// 1 KiB / 4 KiB boundaries. First byte symbolic, the rest a fixed pattern.
 	Long  int
 	nodes int
 	h     *rt.H
@@ -91,6 +92,17 @@ func (c *Cfg) str(what string) []byte {
 		max := 5
 		if c.Long >= 2 {
 			max = 8
+		}
+		if c.Long == 3 {
+			// lengths whose encoding is a structural marker byte of UBJSON
+			// (# $ F N T Z [ ] { }): a pending length byte must never be read as a marker
+			lens = []int{0, '#', '$', 'F', 'N', 'T', 'Z', '[', ']', '{', '}'}
+			max = 10
+		}
+		if c.Long == 4 {
+			// beyond the sizes at which buffers are grown, kept or dropped (1 KiB, 4 KiB)
+			lens = []int{0, 1023, 1025, 1100, 4095, 4097, 4200}
+			max = 6
 		}
 		if i := c.h.Choose(what+"long", 0, max); i > 0 {
 			b := make([]byte, lens[i])
